@@ -707,10 +707,16 @@ func genFaultScenario(rng *vh.Rng, idx int) []op {
 			for j := 0; j < 1+rng.Intn(4); j++ {
 				o.pts = append(o.pts, [2]int64{int64(pickId()), int64(rng.Intn(2001)) - 1000})
 			}
+			if rng.Chance(20) {
+				o.pts = repeatSome(rng, o.pts, func(p [2]int64) [2]int64 { return [2]int64{p[0], int64(rng.Intn(2001)) - 1000} })
+			}
 		case w < 80:
 			o = op{kind: "delete"}
 			for j := 0; j < 1+rng.Intn(3); j++ {
 				o.ids = append(o.ids, pickId())
+			}
+			if rng.Chance(20) {
+				o.ids = repeatSome(rng, o.ids, func(i int) int { return i })
 			}
 		default:
 			o = op{kind: "search", skind: vh.Pick(rng, []int{0, 1, 2, 4, 5, 6}), sarg: rng.Intn(64), limit: vh.Pick(rng, []int{2, 5, 10, 100})}
